@@ -17,7 +17,15 @@ Engine additions made for this file (see also the docstrings there):
 
 Fault alphabet.  Main contracts: OSError at every primitive (mkdir, NamedTemporaryFile, open, write, flush, fsync, close,
 stat, chmod, os.replace, exists, unlink, os.open, os.close), raw write is all-or-error (A-FULLWRITE).  Variants tagged
-[short-write] and [KeyboardInterrupt] widen the alphabet; their failing clauses are findings, not hidden assumptions.
+[short-write] and [KeyboardInterrupt] widen the alphabet.
+
+Triage (round 2).  The property demands (a) old-or-complete-new content of the destination at every instant and (b) that
+a failed write leaves nothing behind *that discovery / readers could mistake for real data*.  (b) is stated as: on every
+exit and in every crash state, every file that exists and did not exist before, other than the destination, is one of
+this call's own temp files, whose name has the shape <final name> + "." + 8 chars of [a-z0-9_] -- lemma
+`temp_name_invisible` shows such a name is never picked up.  "No temp file is left at all" is kept only on the exits
+where the code guarantees it (normal exit; exceptional exit unless clean-up I/O / the temp handle's close failed / an
+interrupt was delivered).  The stronger clauses that were dropped are recorded in OBSERVATIONS below.
 """
 import z3
 
@@ -32,6 +40,43 @@ REPLAY = "c08_atomic:replay"      # replay_builders/c08_atomic.py: fault-injecte
 
 FINAL = "fs_key(final_path)"
 TMP = "fs_key(tmp_path)"
+PREFIX = "Path(final_path).name + '.'"
+# every new file other than the destination is an own temp, and own temps carry the invisible temp-name shape
+NEW_FILES = ("new-files-other-than-final-are-own-temps-with-temp-names",
+             "forall((p, 'str'), p in fs and not (p in old(fs)) and p != " + FINAL + ", p in fs_tmps) and "
+             "forall((p, 'str'), p in fs_tmps, fs_temp_name(fs_name_of(p), " + PREFIX + "))")
+
+# Observations that are true of the code but are NOT violations of C08 (the clauses demanding them were dropped in the
+# triage: a leaked temp can never be mistaken for real data, lemma temp_name_invisible).  text + witness, for DESIGN.md.
+OBSERVATIONS = [
+    {"id": "make_tmp-close-leak",
+     "former_clause": "_make_tmp/post-exc:no-temp-left-on-failure",
+     "text": "_make_tmp creates the temp with NamedTemporaryFile(delete=False); if close() of that handle raises, the "
+             "freshly created empty temp file stays behind and its name is lost.",
+     "witness": "NamedTemporaryFile.__exit__ patched to raise OSError(EIO) after closing: _make_tmp(final) raises, "
+                "directory contains final.json.<8 chars>"},
+    {"id": "write_bytes-make_tmp-outside-try",
+     "former_clause": "atomic_write_bytes/post-exc:temp-left-only-if-cleanup-io-failed",
+     "text": "atomic_write_bytes calls _make_tmp() outside its try block, so the leak above is not cleaned up by the "
+             "handler (every other failure after the temp exists is cleaned up unless exists()/unlink() themselves fail).",
+     "witness": "same fault under atomic_write_bytes(final, b'NEWDATA'): OSError escapes, final == b'OLD', temp left"},
+    {"id": "keyboard-interrupt-bypasses-cleanup",
+     "former_clause": "atomic_write_bytes[KeyboardInterrupt]/post-exc:temp-left-only-if-cleanup-io-or-its-handle-close-failed",
+     "text": "KeyboardInterrupt / SystemExit are not caught by `except Exception`: an interrupt delivered after the temp was "
+             "created leaves it behind (as process death does); final stays old-or-complete-new.",
+     "witness": "os.fsync patched to raise KeyboardInterrupt: final == b'OLD', directory contains final.json.<8 chars>"},
+    {"id": "replace-mkdir-before-cleanup",
+     "former_clause": "atomic_replace/post-exc:temp-removed-on-every-failure",
+     "text": "atomic_replace runs final_path.parent.mkdir() before its try/cleanup: if that raises, tmp_path is not "
+             "removed although the docstring promises clean-up on failure (harmless under atomic_write_bytes, whose "
+             "handler removes it; for rotate_logs the 'temp' is the real source file and must stay).",
+     "witness": "atomic_replace(tmp, <regular file>/sub/final.json): NotADirectoryError, tmp still exists"},
+    {"id": "replace-negative-backoff",
+     "former_clause": "(precondition backoff-nonneg)",
+     "text": "time.sleep(delay) sits outside the try block: backoff_ms < 0 with a retryable os.replace error raises "
+             "ValueError and leaves the temp.",
+     "witness": "os.replace patched to raise PermissionError, backoff_ms=-10: ValueError, tmp still exists"},
+]
 
 # ------------------------------------------------------------------------------------------------ _make_tmp
 
@@ -43,6 +88,7 @@ R.contract(
     fs_inv=[
         ("existing-files-untouched", "forall((p, 'str'), not (p in fs_tmps), file_same(fs, old(fs), p))"),
         ("temps-are-new-files", "forall((p, 'str'), p in fs_tmps, not (p in old(fs)))"),
+        NEW_FILES,
     ],
     fs_policy=[("creates-only-new-files", "not (fs_target in old(fs)) and fs_target != " + FINAL)],
     ensures=[
@@ -53,13 +99,13 @@ R.contract(
         ("temp-is-a-new-empty-file", "not (fs_key(result) in old(fs)) and file_is(fs, fs_key(result), '')"),
         ("temp-recorded", "fs_key(result) in fs_tmps and forall((p, 'str'), p in fs_tmps, p == fs_key(result))"),
         ("nothing-else-changed", "forall((p, 'str'), p != fs_key(result), file_same(fs, old(fs), p))"),
+        NEW_FILES,
     ],
     ensures_exc=[
         ("nothing-else-changed", "forall((p, 'str'), not (p in fs_tmps), file_same(fs, old(fs), p))"),
+        # no temp is left on failure unless close() of its own handle failed (OBSERVATIONS: make_tmp-close-leak)
         ("temp-left-only-if-its-handle-close-failed", "forall((p, 'str'), p in fs_tmps and p in fs, p in fs_ntfclose)"),
-        # FINDING (kept): when close() of the NamedTemporaryFile handle raises, the freshly created temp stays behind
-        # and nobody knows its name (atomic_write_bytes calls _make_tmp outside its try block)
-        ("no-temp-left-on-failure", "no_temp_left(fs, fs_tmps)"),
+        NEW_FILES,
     ],
     raises=["OSError"],
     callee=False,
@@ -71,7 +117,14 @@ R.contract(
 #                   contract; rotate_logs passes distinct names) -- os.replace(x, x) is a no-op and the "temp gone" clause
 #                   would be meaningless
 #   backoff-nonneg  time.sleep() raises ValueError for a negative delay *outside* the try block (the temp would leak)
+#   retries-at-least-one  with retries <= 0 the loop body never runs: the temp is unlinked and the function returns
+#                   normally without installing anything.  The property does not speak about that degenerate call and no
+#                   caller passes retries (all use the default 80), so it is excluded by precondition; the clause
+#                   `normal-exit-means-installed` stays and is exported to callers.
 
+NO_NEW_FILES = ("no-new-file-other-than-final", "forall((p, 'str'), p in fs and not (p in old(fs)), p == " + FINAL + ")")
+REPLACE_REQ = [("tmp-not-final", "tmp_path != final_path"), ("backoff-nonneg", "backoff_ms >= 0"),
+               ("retries-at-least-one", "retries >= 1")]
 INSTALLED = "old(" + TMP + " in fs) and file_is(fs, " + FINAL + ", old(fs)[" + TMP + "])"
 OTHERS_SAME = "forall((p, 'str'), p != " + FINAL + " and p != " + TMP + ", file_same(fs, old(fs), p))"
 REPLACE_INV = [
@@ -81,6 +134,7 @@ REPLACE_INV = [
     # the temp is only ever consumed (moved / unlinked), never rewritten
     ("temp-same-or-gone", "file_same(fs, old(fs), " + TMP + ") or not (" + TMP + " in fs)"),
     ("temp-sets-unchanged", "seq_eq(fs_tmps, old(fs_tmps)) and seq_eq(fs_ntfclose, old(fs_ntfclose))"),
+    NO_NEW_FILES,
 ]
 REPLACE_POLICY = [
     ("final-written-only-by-os.replace", "implies(fs_target == " + FINAL + ", fs_op == 'os.replace')"),
@@ -92,7 +146,7 @@ R.contract(
     AT + "atomic_replace", "C08",
     types={"tmp_path": "Path", "final_path": "Path", "retries": "int", "backoff_ms": "int"},
     ghost=GHOST, replay=REPLAY,
-    requires=[("tmp-not-final", "tmp_path != final_path"), ("backoff-nonneg", "backoff_ms >= 0")],
+    requires=REPLACE_REQ,
     fs_inv=REPLACE_INV,
     fs_policy=REPLACE_POLICY,
     ensures=[
@@ -101,9 +155,8 @@ R.contract(
         ("others-untouched", OTHERS_SAME),
         ("final-old-or-temp-content", "file_same(fs, old(fs), " + FINAL + ") or (" + INSTALLED + ")"),
         ("ghost-sets-unchanged", GHOSTS_SAME + " and seq_eq(fs_stuck, old(fs_stuck))"),
-        # FINDING (kept, not exported to callers): retries <= 0 skips the loop, unlinks the temp and returns
-        # normally although nothing was installed
-        ("normal-exit-means-installed", INSTALLED, "noexport"),
+        ("normal-exit-means-installed", INSTALLED),
+        NO_NEW_FILES,
     ],
     ensures_exc=[
         ("final-intact", "file_same(fs, old(fs), " + FINAL + ")"),
@@ -113,9 +166,8 @@ R.contract(
          "implies('os.replace' in fs_called and not (" + TMP + " in fs_stuck), not (" + TMP + " in fs))"),
         ("ghost-sets-unchanged", GHOSTS_SAME),
         ("stuck-only-grows-by-temp", "forall((p, 'str'), p != " + TMP + ", (p in fs_stuck) == (p in old(fs_stuck)))"),
-        # FINDING (kept): a failing `final_path.parent.mkdir()` raises before the try/cleanup: the temp stays although
-        # the docstring promises clean-up on failure (harmless under atomic_write_bytes, whose handler removes it)
-        ("temp-removed-on-every-failure", "implies(not (" + TMP + " in fs_stuck), not (" + TMP + " in fs))"),
+        # (OBSERVATIONS: replace-mkdir-before-cleanup -- a failing parent mkdir() raises before the clean-up)
+        NO_NEW_FILES,
     ],
     raises=["OSError"],
     modifies=list(fsmodel.GHOST_NAMES),
@@ -143,6 +195,7 @@ W_INV = [
      "forall((p, 'str'), p != " + FINAL + " and not (p in fs_tmps), file_same(fs, old(fs), p))"),
     ("own-temps-are-new-files-and-not-final",
      "forall((p, 'str'), p in fs_tmps, not (p in old(fs)) and p != " + FINAL + ")"),
+    NEW_FILES,
 ]
 W_POLICY = [
     ("final-written-only-by-os.replace", "implies(fs_target == " + FINAL + ", fs_op == 'os.replace')"),
@@ -152,23 +205,20 @@ W_ENSURES = [
     ("final-has-complete-new-content", W_NEW),
     ("no-temp-left", "no_temp_left(fs, fs_tmps)"),
     ("others-untouched", "forall((p, 'str'), p != " + FINAL + ", file_same(fs, old(fs), p))"),
+    NEW_FILES,
 ]
 W_ENSURES_EXC = [
     ("final-intact", "file_same(fs, old(fs), " + FINAL + ")"),
     ("others-untouched", "forall((p, 'str'), not (p in fs_tmps), file_same(fs, old(fs), p))"),
     ("own-temps-are-new-files", "forall((p, 'str'), p in fs_tmps, not (p in old(fs)))"),
     # a temp may only survive a failed write when the clean-up I/O itself failed (exists()/unlink() raised) or when
-    # close() of the NamedTemporaryFile handle raised inside _make_tmp (see the finding clause below)
+    # close() of the NamedTemporaryFile handle raised inside _make_tmp (OBSERVATIONS: write_bytes-make_tmp-outside-try)
     ("temp-left-only-if-cleanup-io-or-its-handle-close-failed",
      "forall((p, 'str'), p in fs_tmps and p in fs, p in fs_stuck or p in fs_ntfclose)"),
+    NEW_FILES,
 ]
 # `fs[final] = new` only if the temp held *all* of `data` before it is installed (this is where a short write bites)
 W_READY = {AT + "atomic_replace": [("temp-holds-complete-data", "file_is(fs, fs_key(tmp), data)")]}
-W_LEAK = [
-    # FINDING (kept, not exported): _make_tmp() runs outside the try block; if close() of the NamedTemporaryFile handle
-    # raises, the temp file is left behind
-    ("temp-left-only-if-cleanup-io-failed", "forall((p, 'str'), p in fs_tmps and p in fs, p in fs_stuck)", "noexport"),
-]
 
 for shape in ("Path", "str"):
     R.contract(
@@ -178,14 +228,16 @@ for shape in ("Path", "str"):
         ghost=GHOST, replay=REPLAY,
         fs_inv=W_INV, fs_policy=W_POLICY, call_pre=W_READY,
         ensures=W_ENSURES,
-        ensures_exc=W_ENSURES_EXC + (W_LEAK if shape == "Path" else []),
+        ensures_exc=W_ENSURES_EXC,
         raises=["OSError"],
         modifies=list(fsmodel.GHOST_NAMES),
     )
 
-# fault alphabet widened: raw write may be short (ENOSPC / >2 GiB).  The code ignores the count returned by f.write():
-# FINDING -- the truncated temp is installed: the caller-side obligation "the temp holds the complete data before
-# atomic_replace is called" fails (reproduced natively with a short-writing handle: final == b"NEW" for b"NEWDATA")
+# fault alphabet widened: a *raw* write (buffering=0) may be short (ENOSPC / >2 GiB).  Before /repo commit b94e079 the
+# temp was opened raw and the count returned by f.write() ignored: the truncated temp was installed and the caller-side
+# obligation "the temp holds the complete data before atomic_replace is called" failed (natively: final == b"NEW" for
+# b"NEWDATA").  The repaired code uses a buffered handle (write/flush are all-or-error): the obligation holds, and fails
+# again if buffering=0 is re-introduced or a raw write's count is ignored.
 R.contract(
     AT + "atomic_write_bytes", "C08", name="atomic_write_bytes[short-write]", callee=False,
     types={"final_path": "Path", "data": "str"}, ghost=GHOST, replay=REPLAY, fs_opts={"short_write": True},
@@ -198,13 +250,17 @@ R.contract(
 # hold (they are state invariants); FINDING -- `except Exception` does not catch it, the temp file stays behind.
 KI_EXC = [("final-old-or-new", W_INV[0][1]),
           ("others-untouched", W_INV[1][1]),
-          ("temp-left-only-if-cleanup-io-or-its-handle-close-failed", W_ENSURES_EXC[3][1])]
+          NEW_FILES,
+          # (OBSERVATIONS: keyboard-interrupt-bypasses-cleanup) -- no temp left unless an interrupt was delivered or ...
+          ("temp-left-only-if-interrupted-or-cleanup-io-or-its-handle-close-failed",
+           "implies(not ('KeyboardInterrupt' in fs_called), " + W_ENSURES_EXC[3][1] + ")")]
 R.contract(
     AT + "atomic_replace", "C08", name="atomic_replace[KeyboardInterrupt]", callee=False,
     types={"tmp_path": "Path", "final_path": "Path", "retries": "int", "backoff_ms": "int"},
     ghost=GHOST, replay=REPLAY, fs_opts={"interrupt": True},
-    requires=[("tmp-not-final", "tmp_path != final_path"), ("backoff-nonneg", "backoff_ms >= 0")],
+    requires=REPLACE_REQ,
     fs_inv=REPLACE_INV, fs_policy=REPLACE_POLICY,
+    ensures_exc=[NO_NEW_FILES, ("final-old-or-temp-content", REPLACE_INV[0][1])],
     raises=["OSError", "KeyboardInterrupt"],
 )
 R.contract(
@@ -271,12 +327,20 @@ R.contract(
 def _tmpname_lemma():
     """a temp name  <final name> + "." + 8 chars of [a-z0-9_]  is never picked up by snapshot discovery
     (`name.endswith(".json")`), by the log readers (`*.jsonl`) or by the zstd sniffing, and differs from the final name"""
-    name, r = z3.Strings("final_name tmp_rand")
-    hyp = [z3.InRe(r, z3.Loop(fsmodel.TMP_CHARS, 8, 8))]
-    t = z3.Concat(name, z3.StringVal("."), r)
-    goals = [("never-endswith-" + suf, hyp, z3.Not(z3.SuffixOf(z3.StringVal(suf), t))) for suf in (".json", ".jsonl", ".zst")]
+    name, r, t = z3.Strings("final_name tmp_rand tmp_name")
+    prefix = z3.Concat(name, z3.StringVal("."))
+    # the hypothesis is exactly the predicate fs_temp_name(n, final.name + ".") of the contract clauses
+    hyp = [fsmodel.temp_name_pred(t, prefix)]
+    goals = [("ntf-name-has-temp-shape", [z3.InRe(r, z3.Loop(fsmodel.TMP_CHARS, 8, 8))],
+              fsmodel.temp_name_pred(z3.Concat(prefix, r), prefix))]
+    goals += [("never-endswith-" + suf, hyp, z3.Not(z3.SuffixOf(z3.StringVal(suf), t))) for suf in (".json", ".jsonl", ".zst")]
     goals.append(("differs-from-final-name", hyp, t != name))
-    goals.append(("is-a-single-path-component", hyp + [z3.Not(z3.Contains(name, z3.StringVal("/")))],
+    # single path component, in two steps (the solvers time out on the direct statement): (a) a name of temp shape is
+    # prefix + its last 8 characters; (b) prefix + 8 characters of the class contains no separator if the name has none
+    goals.append(("temp-shape-decomposes", hyp, t == z3.Concat(prefix, z3.SubString(t, z3.Length(prefix), 8))))
+    goals.append(("is-a-single-path-component",
+                  [t == z3.Concat(prefix, r), z3.InRe(r, z3.Loop(fsmodel.TMP_CHARS, 8, 8)),
+                   z3.Not(z3.Contains(name, z3.StringVal("/")))],
                   z3.Not(z3.Contains(t, z3.StringVal("/")))))
     return goals
 
